@@ -1477,9 +1477,76 @@ impl<'a> Gen<'a> {
 }
 
 pub fn random_set(seed: u64, salt: u64, idx: u64, o: &GenOpts) -> ModuleSet {
+    // The compiler's recursion detection enumerates the simple paths of the type reference graph (`ASN1Type::recurses`), so a
+    // dense graph of ~20 mutually referencing types compiles for minutes (observed: 440 s). That is a cost, not one of the
+    // properties: sets whose reference graph has too many paths are re-drawn (with fewer definitions each time).
+    let mut o2 = o.clone();
+    for attempt in 0..6u64 {
+        let mut rng = Rng::for_case(seed, salt.wrapping_add(attempt.wrapping_mul(7_919_000)), idx);
+        let set = Gen::new(&mut rng, o2.clone()).module_set();
+        if reference_paths(&set, 200_000) < 200_000 {
+            return set;
+        }
+        o2.assigns = (o2.assigns.0.min(2), (o2.assigns.1 / 2).max(2));
+    }
     let mut rng = Rng::for_case(seed, salt, idx);
-    let mut g = Gen::new(&mut rng, o.clone());
-    g.module_set()
+    let mut o3 = o.clone();
+    o3.recursion = false;
+    o3.assigns = (1, 2);
+    Gen::new(&mut rng, o3).module_set()
+}
+
+/// number of simple paths in the type reference graph, summed over all start nodes, capped at `cap`
+pub fn reference_paths(set: &ModuleSet, cap: u64) -> u64 {
+    fn refs(t: &Ty, out: &mut Vec<String>) {
+        match &t.kind {
+            TyKind::Ref { name, .. } => out.push(name.clone()),
+            TyKind::Sequence(s) | TyKind::Set(s) | TyKind::Choice(s) => struct_comps(s).iter().for_each(|c| refs(&c.ty, out)),
+            TyKind::SeqOf(e) | TyKind::SetOf(e) => refs(e, out),
+            _ => {}
+        }
+    }
+    let mut names: Vec<String> = vec![];
+    let mut edges: Vec<Vec<String>> = vec![];
+    for m in &set.modules {
+        for a in &m.assigns {
+            if let Assign::Type { name, ty } = a {
+                let mut r = vec![];
+                refs(ty, &mut r);
+                r.sort();
+                r.dedup();
+                names.push(name.clone());
+                edges.push(r);
+            }
+        }
+    }
+    let idx: BTreeMap<&str, usize> = names.iter().enumerate().map(|(i, n)| (n.as_str(), i)).collect();
+    let adj: Vec<Vec<usize>> = edges.iter().map(|r| r.iter().filter_map(|n| idx.get(n.as_str()).copied()).collect()).collect();
+    fn walk(v: usize, adj: &[Vec<usize>], on: &mut Vec<bool>, count: &mut u64, cap: u64) {
+        *count += 1;
+        if *count >= cap {
+            return;
+        }
+        on[v] = true;
+        for &w in &adj[v] {
+            if !on[w] {
+                walk(w, adj, on, count, cap);
+                if *count >= cap {
+                    break;
+                }
+            }
+        }
+        on[v] = false;
+    }
+    let mut total = 0u64;
+    for v in 0..adj.len() {
+        let mut on = vec![false; adj.len()];
+        walk(v, &adj, &mut on, &mut total, cap);
+        if total >= cap {
+            return cap;
+        }
+    }
+    total
 }
 
 // ---------------------------------------------------------------------------------- shrinking
@@ -1763,6 +1830,10 @@ pub fn tags_legal(set: &ModuleSet) -> bool {
         }
     }
     true
+}
+
+pub fn struct_comps_pub(s: &Struct) -> Vec<&Comp> {
+    struct_comps(s)
 }
 
 fn struct_comps(s: &Struct) -> Vec<&Comp> {
